@@ -146,7 +146,11 @@ func (g *gen) mutateSchemas(st *seqState, limits []int32) []Schema {
 }
 
 func (g *gen) seqCase(i int) Case {
-	stream := []string{"basic", "basic", "basic", "overlimit", "overlimit", "ids", "edge", "acquire", "acquire", "basic"}[i%10]
+	stream := []string{"basic", "basic", "tb-resync", "overlimit", "overlimit", "ids", "edge", "acquire", "acquire", "basic"}[i%10]
+	if stream == "tb-resync" {
+		g.lastStream = stream
+		return g.resyncCase()
+	}
 	g.lastStream = stream
 	st := &seqState{lastID: map[string]int64{}}
 	limits := []int32{0, 1, 2, 3, 5, 10, 50, 100}
@@ -246,6 +250,57 @@ func (g *gen) seqCase(i int) Case {
 	return Case{Kind: "seq", Ops: ops}
 }
 
+// resyncCase: a token bucket next to other schemas of the same cluster; tokens are drawn, the cluster's spec is
+// synced again with a difference ELSEWHERE (another schema edited / added / removed, order changed) or the bucket is
+// resized to the values it has, and tokens are drawn again at once.
+func (g *gen) resyncCase() Case {
+	burst := rig.Pick(g.r, []int32{2, 4, 10, 16})
+	tb := Schema{Name: fcT, Tb: &[2]int32{1, burst}}
+	other := []Schema{{Name: fcA, Mif: i32(rig.Pick(g.r, []int32{1, 5, 50}))}}
+	spec := func() []Schema {
+		l := append([]Schema{}, other...)
+		pos := g.r.Intn(len(l) + 1)
+		l = append(l[:pos], append([]Schema{tb}, l[pos:]...)...)
+		return l
+	}
+	ops := []Op{{K: "sync", Schemas: spec()}}
+	var rid int64
+	acq := func() Op {
+		rid++
+		tk := rig.Pick(g.r, []int32{burst, burst, burst / 2, 1, 2 * burst, 8 * burst, burst + 1})
+		return Op{K: "acq", Inst: rig.Hex(rig.Pick(g.r, instNames)), Rid: rid, Nows: make([]int64, 8), Reqs: []Req{{FC: fcT, Tokens: tk}}}
+	}
+	for k := 4 + g.r.Intn(12); k > 0; k-- {
+		switch w := g.r.Intn(10); {
+		case w < 5:
+			ops = append(ops, acq())
+		case w < 8: // edit elsewhere
+			switch g.r.Intn(4) {
+			case 0:
+				other[0].Mif = i32(*other[0].Mif + 1)
+			case 1:
+				other = append(other, Schema{Name: fcB, Mif: i32(7)})
+			case 2:
+				if len(other) > 1 {
+					other = other[:1]
+				} else {
+					other[0].Mif = i32(*other[0].Mif + 2)
+				}
+			default:
+				other[0] = Schema{Name: fcA, Mif: i32(int32(1 + g.r.Intn(60)))}
+			}
+			ops = append(ops, Op{K: "sync", Schemas: spec()})
+		case w < 9: // Resize to the same values
+			ops = append(ops, Op{K: "resize", FC: fcT, N: 1, Burst: burst})
+		default: // a real change of this bucket
+			burst = rig.Pick(g.r, []int32{2, 4, 10, 16})
+			tb = Schema{Name: fcT, Tb: &[2]int32{1, burst}}
+			ops = append(ops, Op{K: "sync", Schemas: spec()})
+		}
+	}
+	return Case{Kind: "seq", Ops: ops}
+}
+
 func (g *gen) bucketCase() Case {
 	qps := rig.Pick(g.r, []int32{1, 2, 3, 7, 10, 100, 1000, 99999})
 	burst := rig.Pick(g.r, []int32{0, 1, 2, 5, 10, 100, 1000, 10000})
@@ -256,6 +311,7 @@ func (g *gen) bucketCase() Case {
 	n := 5 + g.r.Intn(36)
 	back := g.r.Intn(12) == 0
 	neg := g.r.Intn(15) == 0
+	resizes := g.r.Intn(3) == 0
 	for k := 0; k < n; k++ {
 		step := rig.Pick(g.r, []int64{0, 0, 1, 1, 5, 100, 1000, 3000, fill, fill / 2, fill + 1, 1000 / int64(qps), 1000/int64(qps) + 1})
 		now += step * ms
@@ -271,6 +327,18 @@ func (g *gen) bucketCase() Case {
 			v = 0
 		}
 		cs.Calls = append(cs.Calls, Call{Now: now, N: int32(v)})
+		if resizes && g.r.Intn(5) == 0 {
+			// a re-sync of the spec: mostly to the values the bucket already has (no reconfiguration: the window
+			// of the rate judge spans it), sometimes a real change (the window is closed)
+			if g.r.Intn(4) != 0 {
+				cs.Calls = append(cs.Calls, Call{Resize: &[2]int32{qps, burst}})
+			} else {
+				qps = rig.Pick(g.r, []int32{1, 2, 7, 10, 100, 1000})
+				burst = rig.Pick(g.r, []int32{0, 1, 2, 5, 10, 100, 1000})
+				fill = int64(burst) * 1000 / int64(qps)
+				cs.Calls = append(cs.Calls, Call{Resize: &[2]int32{qps, burst}})
+			}
+		}
 	}
 	return cs
 }
